@@ -106,6 +106,10 @@ def analyse(spec, b, res, viol, check_pruning=False):
         if len([c for c in st.next if isinstance(c, SelectionChoiceNode)]) >= 2:
             feats['multi_order'] = 1
         if check_pruning:
+            # C06: no feasible state holds both ends of an incompatibility among its confirmed nodes
+            for u, v in spec.get('incompat', []):
+                if u in X and v in X and u in names and v in names:
+                    bad.append(('incompatible-pair-in-feasible-state', dict(path=st.path, pair=[u, v])))
             # no over-pruning: every admissible architecture extending the assignment keeps its options
             for c in st.next:
                 if not isinstance(c, SelectionChoiceNode):
